@@ -33,6 +33,7 @@ class C14(Prop):
             # compared exactly, so the model's output IS the reference. The oracle adds the directly observable
             # clauses: crash atomicity, idempotent delete, 'not found' for entries never written in this case.
             written = set()
+            present = {}   # key -> True (a valid value is stored) / False (deleted); absent = unknown (raw bytes etc.)
             for i, (op, g) in enumerate(zip(cops, cgo)):
                 if g.startswith("violation:"):
                     out.append(viol("a save killed by SIGKILL was neither complete nor absent: " + g, cops, cgo, upto=i))
@@ -43,14 +44,27 @@ class C14(Prop):
                 key = (kind, a.get("id"))
                 if name_ in ("ps.saverpm", "ps.savemap", "ps.putraw", "ps.crashsave"):
                     written.add(key)
+                    if name_ in ("ps.saverpm", "ps.savemap") and g == "ok":
+                        present[key] = True
+                    else:
+                        present.pop(key, None)
                     if name_ == "ps.crashsave":
-                        written.add(("rpm", a.get("id")))
-                        written.add(("map", a.get("id")))
+                        for kk in (("rpm", a.get("id")), ("map", a.get("id"))):
+                            written.add(kk)
+                            present.pop(kk, None)
                 elif name_ in ("ps.delrpm", "ps.delmap"):
                     if g != "ok":
                         out.append(viol(f"delete reported {g} (must be idempotent)", cops, cgo, upto=i))
                         break
+                    present[key] = False
                 elif name_ in ("ps.loadrpm", "ps.loadmap"):
+                    if present.get(key) is True and g.startswith("err"):
+                        out.append(viol(f"an entry that was saved (and not overwritten or deleted since) is gone: load reported {g}: "
+                                        "another fan's / kind's operation changed it", cops, cgo, upto=i))
+                        break
+                    if present.get(key) is False and not g.startswith("err"):
+                        out.append(viol(f"a deleted entry is back: load reported {g[:60]}", cops, cgo, upto=i))
+                        break
                     if key not in written and g != "err:notfound" and not g.startswith("err"):
                         out.append(viol(f"load of an entry never written reported {g[:60]}, not 'not found'", cops, cgo, upto=i))
                         break
